@@ -2,8 +2,16 @@
 
 package verifier
 
+import "github.com/wormhole-foundation/example-near-light-client/variables"
+
 // Test-only export for the external verification harness (build tag "verif"): the verifier circuit
 // exactly as CompileVerifierCircuit builds it.
 func VerifNewVerifierCircuit(circuitPath string) VerifierCircuit {
 	return newVerifierCircuit(circuitPath)
+}
+
+// VerifRangeCheckProof runs only the first stage of Verify: the canonical-form checks of the
+// Goldilocks values of a proof.
+func (c *VerifierChip) VerifRangeCheckProof(proof variables.Proof) {
+	c.rangeCheckProof(proof)
 }
